@@ -429,6 +429,9 @@ def evaluate(case, chk):
             # one run per case with frequent preemption inside functions: the target writers run the same formatting
             # code side by side
             cfgs[-1]["sched"] = dict(cfgs[-1]["sched"], preempt=rng.choice([2, 3, 5, 10]))
+        if case["kind"] == "pipe" and cfgs:
+            # a pipe target's command may take arbitrarily long: longer than any timer in the process
+            cfgs[0]["sched"] = dict(cfgs[0]["sched"], timers_first=True)
         if case.get("bulk"):
             # keep each target's writer goroutine behind its producer
             writers = [g for g in pilot.goroutines if "file_output_handlers.go" in g]
